@@ -9,6 +9,7 @@ pub mod c06;
 pub mod c07;
 pub mod c08;
 pub mod c09;
+pub mod c10;
 pub mod c11;
 pub mod c12;
 pub mod c13;
@@ -26,6 +27,7 @@ pub fn spec(id: &str) -> Option<PropSpec> {
         "C07" => Some(c07::spec()),
         "C08" => Some(c08::spec()),
         "C09" => Some(c09::spec()),
+        "C10" => Some(c10::spec()),
         "C11" => Some(c11::spec()),
         "C12" => Some(c12::spec()),
         "C13" => Some(c13::spec()),
